@@ -134,6 +134,25 @@ where
     A: crate::BaseAllocator<S::GuaranteedAllocated> + Default,
     S: BumpAllocatorSettings,
 {
+    ob_prepared_slice_via::<A, S>(k, hint, rev, false);
+}
+
+/// The same contract through the trait-object interface (`dyn BumpAllocatorCore`): the typed methods of the trait
+/// object go through the GENERIC `prepare_allocation` / `allocate_prepared(_rev)` of `BumpScope`, the typed methods
+/// of `BumpScope` have their own fast-path implementation.  Both satisfy the same functional postcondition (C17).
+pub(crate) fn ob_prepared_slice_dyn<A, S>(k: usize, hint: usize, rev: bool)
+where
+    A: crate::BaseAllocator<S::GuaranteedAllocated> + Default,
+    S: BumpAllocatorSettings,
+{
+    ob_prepared_slice_via::<A, S>(k, hint, rev, true);
+}
+
+pub(crate) fn ob_prepared_slice_via<A, S>(k: usize, hint: usize, rev: bool, via_dyn: bool)
+where
+    A: crate::BaseAllocator<S::GuaranteedAllocated> + Default,
+    S: BumpAllocatorSettings,
+{
     type T = u16;
     const SZ: usize = 2;
     let mut a = Arena::<A, S>::build(k, hint);
@@ -150,7 +169,8 @@ where
     let vals = [kani::any::<T>(), kani::any::<T>(), kani::any::<T>()];
     let (mut cov_full, mut cov_partial, mut cov_fail) = (false, false, false);
     if !rev {
-        let r = scope.try_prepare_slice_allocation::<T>(want);
+        let dy: &dyn BumpAllocatorCore = scope;
+        let r = if via_dyn { dy.try_prepare_slice_allocation::<T>(want) } else { scope.try_prepare_slice_allocation::<T>(want) };
         if a.cur_index() == ci {
             kani::assert(same_headers(k, &s0, &a.snaps()), "C15.prepare_slice.moves_no_position");
         }
@@ -170,7 +190,7 @@ where
                 i += 1;
             }
             kani::assert(same_headers(k, &s0, &a.snaps()), "C15.filling.moves_no_position");
-            let out = unsafe { scope.allocate_prepared_slice::<T>(ptr, len, cap) };
+            let out = unsafe { if via_dyn { dy.allocate_prepared_slice::<T>(ptr, len, cap) } else { scope.allocate_prepared_slice::<T>(ptr, len, cap) } };
             let oa = out.as_ptr() as *mut T as usize;
             kani::assert(out.len() == len, "C15.commit.exact_length");
             let j: usize = kani::any();
@@ -197,7 +217,8 @@ where
         }
         cov_fail = r.is_err();
     } else {
-        let r = scope.try_prepare_slice_allocation_rev::<T>(want);
+        let dy: &dyn BumpAllocatorCore = scope;
+        let r = if via_dyn { dy.try_prepare_slice_allocation_rev::<T>(want) } else { scope.try_prepare_slice_allocation_rev::<T>(want) };
         if a.cur_index() == ci {
             kani::assert(same_headers(k, &s0, &a.snaps()), "C15.prepare_slice_rev.moves_no_position");
         }
@@ -216,7 +237,7 @@ where
                 i += 1;
             }
             kani::assert(same_headers(k, &s0, &a.snaps()), "C15.filling_rev.moves_no_position");
-            let out = unsafe { scope.allocate_prepared_slice_rev::<T>(end, len, cap) };
+            let out = unsafe { if via_dyn { dy.allocate_prepared_slice_rev::<T>(end, len, cap) } else { scope.allocate_prepared_slice_rev::<T>(end, len, cap) } };
             let oa = out.as_ptr() as *mut T as usize;
             kani::assert(out.len() == len, "C15.commit_rev.exact_length");
             let j: usize = kani::any();
@@ -430,6 +451,10 @@ pub(crate) fn mut_vec_failed_grow_dn8() {
     ob_mut_vec_failed_grow::<LogAlloc, SDn8>(64);
 }
 
+inst!(prepared_slice_dyn_up1, unwind 5, ob_prepared_slice_dyn, LogAlloc, SUp1, 1, 64, false);
+inst!(prepared_slice_dyn_dn8, unwind 5, ob_prepared_slice_dyn, LogAlloc, SDn8, 1, 64, false);
+inst!(prepared_slice_rev_dyn_up8, unwind 5, ob_prepared_slice_dyn, LogAlloc, SUp8, 1, 64, true);
+inst!(prepared_slice_rev_dyn_dn1, unwind 5, ob_prepared_slice_dyn, LogAlloc, SDn1, 1, 64, true);
 inst!(prepared_slice_up1, unwind 5, ob_prepared_slice, LogAlloc, SUp1, 1, 64, false);
 inst!(prepared_slice_dn1, unwind 5, ob_prepared_slice, LogAlloc, SDn1, 1, 64, false);
 inst!(prepared_slice_dn8, unwind 5, ob_prepared_slice, LogAlloc, SDn8, 1, 64, false);
